@@ -3,8 +3,8 @@ proof : Props/C16.v - (a) all 164 rows of the shipped table are admissible (row_
         table), (b) the no-feed human-maximising round is never infeasible for a structural reason when seaweed is not in
         the food set (existence of a feasible assignment for every admissible input with zero charges) and its objective is
         bounded; a concrete seaweed instance that IS infeasible shows why seaweed needs the data.
-grid  : the fixed grid (164 countries + world) x (13 shipped YAML presets, 10 manuscript presets, single-option variations,
-        horizons 48..108) is ENUMERATED ON THE IMPLEMENTATION: thorough = every cell, quick = a seeded sample.  This part
+grid  : the fixed grid (164 countries + world) x (13 shipped YAML presets, 10 manuscript presets, single-option variations of
+        the nuclear-winter base, of the manuscript resilient-food example and of the baseline-climate preset, horizons 48..108) is ENUMERATED ON THE IMPLEMENTATION: thorough = every cell, quick = a seeded sample.  This part
         is testing and is labelled so (level 'other')."""
 import csv
 import json
@@ -35,7 +35,7 @@ def run(ctx):
     okg = ctx.regen(["gen_country_table"]) if os.path.exists("/verif/harness/gen_country_table.py") else True
     ctx.check_props()
     codes = all_codes()
-    cp = presets.country_presets()
+    cp = presets.country_presets(extended=True)
     cells = [{"iso3": c, "preset": n, "option": o} for n, o in cp.items() for c in codes]
     wcells = [{"iso3": "WOR", "preset": n, "option": o} for n, o in presets.world().items()]
     total = len(cells) + len(wcells)
